@@ -71,6 +71,9 @@ func (bm *BucketMeta) Size() int64 {
 // ReadBucketMeta returns bucketMeta at given file path name.
 func ReadBucketMeta(name string) (bucketMeta *BucketMeta, err error) {
 	var off int64
+	if h, _, herr := verifFS("open", name, 0, nil); h {
+		return nil, herr
+	}
 	fd, err := os.OpenFile(name, os.O_CREATE|os.O_RDWR, 0644)
 	defer fd.Close()
 	if err != nil {
